@@ -77,6 +77,10 @@ def _case_from_result(skel, res, emb):
 
 
 def _validate(ctx, jobs, skels, embs, label, nproc=12):
+    # every third job asks for an integer dtype by turns (applied by the driver when the embedded coordinates are integers in range)
+    for i, j in enumerate(jobs):
+        if i % 3 == 2 and "dtype" not in j:
+            j["dtype"] = ["uint8", "int16", "uint16", "int64", "int8", "int32"][(i // 3) % 6]
     results, _ = run_driver_parallel("landscape_exact.py", jobs, nproc=nproc)
     cases, idx = [], []
     for i, (sk, r, e) in enumerate(zip(skels, results, embs)):
